@@ -1220,7 +1220,7 @@ class Scalar(Qube):
         else:
             # Interpret the axis selection
             len_shape = len(self._shape_)
-            if isinstance(axis, int):
+            if isinstance(axis, numbers.Integral):
                 axis = (axis,)
 
             # Force all indices to be positive
